@@ -1,4 +1,4 @@
-#!/venv/bin/python
+#!/opt/veriftools/pyvenv/bin/python
 """Regenerates /verif/MANIFEST.json from the table below and validates it."""
 import json
 import sys
@@ -8,7 +8,26 @@ HOME = Path(__file__).resolve().parent.parent
 ALL = [f'C{i:02d}' for i in range(1, 21)]
 
 # id -> (technique, level text, level note, design ref)
+REF_NOTE = ('trusts RefPEG (vf/refpeg.py), my independent evaluator written from docs/syntax.rst and docs/ast.rst; where the docs are '
+            'silent it raises a U-flag and that aspect is not judged; a defect living only in flagged shapes is not seen')
+
 CHECKS = {
+    'C01': (
+        'property-based testing: Hypothesis-seeded grammar construction, reference oracle RefPEG (accept, consumed length, AST)',
+        'Generated-input search over grammars x inputs against an independent reference evaluator: ~4000 grammars x 6 inputs per quick run '
+        '(derived sentences, near misses, token soup), any start rule, consumed length observed through a wrapper rule. Exploration.',
+        REF_NOTE, 'DESIGN.md §3 C01, §2.3'),
+    'C05': (
+        'property-based testing: cut insertion into generated cut-free grammars; reference oracle RefPEG-with-cut + metamorphic (cuts removed) + locality wrapper',
+        'Generated grammars with 1-3 inserted cuts x sentences corrupted right after each passed cut; three oracles (reference; cuts are invisible '
+        'when no failure follows an executed cut; an outer choice still backtracks). Exploration; classes of cut scope are counted in the evidence.',
+        REF_NOTE, 'DESIGN.md §3 C05'),
+    'C12': (
+        'exhaustive enumeration of short strings x offsets against an independent line splitter; property-based parseinfo check against RefPEG trace',
+        '(a) every string over {a, space, LF, CR} up to length 6 (quick) / 9 (thorough) x every offset x both input classes, exhaustively, plus '
+        'Hypothesis long texts; (b) generated grammars with names/typed rules x laid-out sentences with parseinfo=True: every dict AST and node '
+        'must carry (rule, pos, endpos) of an invocation in the reference trace that returned it, and the right start line. Exploration with an exhaustive sub-space.',
+        'trusts my splitter (LF, CR, CRLF) and RefPEG\'s trace; offset == len(text) only checked for not raising', 'DESIGN.md §3 C12'),
     'C20': (
         'property-based testing (Hypothesis), reference oracle = builtin format(); repr round trip',
         'Generated-input search: ~50k (text, style, spec, route, colour policy) tuples per quick run compared with the builtin '
